@@ -2041,3 +2041,253 @@ C01_SPACE_N_TREATMENTS = dict(
     _SPACE_C01, func="n_unique_treatments", name="src_space_n_unique_treatments",
     attr_vars={"self.treatment_mapping": "self_treatment_mapping"}, params=[("self_treatment_mapping", _TRIPLE)], prims=_SPACE_NUMPY)
 ALL += [C01_SPACE_N_SAMPLES, C01_SPACE_N_TREATMENTS]
+
+# ---- C08: models/sparse_combo.py LegacySparseDrugComboImpl, the Gibbs blocks (vocabulary: end of Model/Gibbs.v) ----
+# `self` is split as the model splits it: g : cfg (options, sizes, hyper-parameters), d : data (self.y, self.cline, self.dd1,
+# self.dd2 and the index dicts _update derives from them), and the sampler state self : st (cfg["fields"]).  A method denotes a
+# program in the free monad gprog over the model's draws: every np.random.normal / np.random.gamma / sample_mvn_from_precision
+# call is a GDraw node carrying the call's arguments, and the method goes on with the drawn value.
+# Trusted per entry: one attribute read / numpy operator / numpy call each.  WHICH index list a block reads, what enters a
+# residual, the prior-only branch, a draw's arguments, where the drawn value is stored, the cache update and the order of all
+# of these come from the translation.
+_QV, _QM, _NV, _ZV = "list qnum", "list list qnum", "list nat", "list Z"
+_C08 = dict(
+    file="src/batchie/models/sparse_combo.py", cls="LegacySparseDrugComboImpl", out="SrcGibbs.v", imports="Lib.Num Model.Gibbs",
+    overload=True,
+    monad=dict(type="gprog", bind="dop", ok="GRet", fold="prog_fold", unwrap="gprog_has_no_unwrap", bind_quote=""),
+    coerce=[("Z", "qnum", "qofZ {x}")],                    # a Python int where a float is needed is that float
+    float_consts={"0.0": ("q0", "qnum"), "1.0": ("q1", "qnum"), "0.5": ("half", "qnum"),
+                  "0.001": ("jitter", "qnum"), "1000000.0": ("prec_hi", "qnum")},
+    fields={f: ("st", t, f + " {obj}", "set_" + f + " {obj} {val}") for f, t in [
+        ("W", _QM), ("W0", _QV), ("V2", _QM), ("V1", _QM), ("V0", _QV), ("alpha", "qnum"), ("prec", "qnum"), ("tau", _QV),
+        ("tau0", "qnum"), ("phi2", _QM), ("phi1", _QM), ("phi0", _QV), ("eta2", _QV), ("eta1", _QV), ("eta0", "qnum"),
+        ("gam", _QV), ("Mu", _QV)]},
+)
+_C08_SELF = [      # attributes of self that the sampler never writes: sizes, hyper-parameters, the observations
+    ("self.n_clines", "Z.of_nat (c_ncl g)", "Z"), ("self.n_drugdoses", "Z.of_nat (c_ndd g)", "Z"), ("self.D", "Z.of_nat (c_D g)", "Z"),
+    ("self.a0", "c_a0 g", "qnum"), ("self.b0", "c_b0 g", "qnum"), ("self.y", "d_y d", _QV),
+    ("self.n_obs()", "!src_n_obs d", "Z"),                                                   # runs its translation
+    ("self.encode_obs()", "(d_y d, d_cl d, d_dd1 d, d_dd2 d)", "(list qnum * list Z * list Z * list Z)"),
+    # the index dicts: _update appends the observation number n to cline_idxs[cl], dd1_idxs[dd1], dd2_idxs[dd2]
+    ("self.cline_idxs[__k]", "positions {k} (d_cl d)", _NV, {"k": "Z"}),
+    ("self.dd1_idxs[__k]", "positions {k} (d_dd1 d)", _NV, {"k": "Z"}),
+    ("self.dd2_idxs[__k]", "positions {k} (d_dd2 d)", _NV, {"k": "Z"}),
+    ("np.array(__l, copy=False)", "{l}", _NV, {"l": _NV}), ("np.array(__l, copy=False, dtype=int)", "{l}", _NV, {"l": _NV}),
+]
+_Q2 = {"a": "qnum", "b": "qnum"}
+_C08_SCALAR = [    # Python / numpy float arithmetic as exact rational arithmetic; integer arithmetic
+    ("__a + __b", "({a} + {b})%Z", "Z", {"a": "Z", "b": "Z"}), ("__a - __b", "({a} - {b})%Z", "Z", {"a": "Z", "b": "Z"}),
+    ("__a * __b", "({a} * {b})%Z", "Z", {"a": "Z", "b": "Z"}),
+    ("__a + __b", "qadd {a} {b}", "qnum", _Q2), ("__a - __b", "qsub {a} {b}", "qnum", _Q2),
+    ("__a * __b", "qmul {a} {b}", "qnum", _Q2), ("__a / __b", "qdiv {a} {b}", "qnum", _Q2),
+]
+_C08_SQRT = [      # np.sqrt and the reciprocal of a square root stay symbolic (Model/Gibbs.v: ssqrt, isqrt)
+    ("np.sqrt(__x)", "Sqrt {x}", "ssqrt", {"x": "qnum"}),
+    ("1.0 / __r", "inv_sqrt {r}", "isqrt", {"r": "ssqrt"}),
+    ("np.clip(__x, __lo, __hi)", "np_clip_isq orc {x} {lo} {hi}", "qnum", {"x": "qnum", "lo": "isqrt", "hi": "qnum"}),
+]
+_C08_DRAWS = [
+    ("np.random.normal(__m, __s)", "!draw_normal {m} {s}", "qnum", {"m": "qnum", "s": "isqrt"}),
+    ("np.random.gamma(__a, __s)", "!draw_gamma {a} {s}", "qnum", {"a": "qnum", "s": "qnum"}),
+]
+_C08_VEC = [       # arrays of equal shape, array op scalar, reductions, integer-array indexing
+    ("__a - __b", "np_vsub {a} {b}", _QV, {"a": _QV, "b": _QV}),
+    ("__a + __b", "np_vadd {a} {b}", _QV, {"a": _QV, "b": _QV}),
+    ("__a + __x", "np_vadds {a} {x}", _QV, {"a": _QV, "x": "qnum"}),
+    ("np.square(__a)", "np_square {a}", _QV, {"a": _QV}), ("__a ** 2", "np_square {a}", _QV, {"a": _QV}),
+    ("__a.sum()", "qsum {a}", "qnum", {"a": _QV}), ("__a.mean()", "qmean {a}", "qnum", {"a": _QV}),
+    ("np.mean(__a)", "qmean {a}", "qnum", {"a": _QV}),
+    ("len(__l)", "Z.of_nat (length {l})", "Z"),
+    ("__a[__i]", "np_get q0 {a} {i}", "qnum", {"a": _QV, "i": "Z"}),
+    ("__a[__i]", "np_gather q0 {a} {i}", _QV, {"a": _QV, "i": _NV}),
+    ("np.concatenate([__a, __b])", "{a} ++ {b}", _QV, {"a": _QV, "b": _QV}),
+    ("np.concatenate([__a, __b])", "{a} ++ {b}", _NV, {"a": _NV, "b": _NV}),
+]
+_STMETHOD = dict(_C08, pyparams=["self"], returns="st", implicit_return="{self}")
+_GDS = [("g", "cfg"), ("d", "data"), ("self", "st")]
+_GDOS = [("g", "cfg"), ("d", "data"), ("orc", "oracle"), ("self", "st")]
+
+C08_N_OBS = dict(_C08, func="n_obs", name="src_n_obs", pyparams=["self"], params=[("d", "data")], returns="Z", vars={},
+                 prims=[("self.y", "d_y d", _QV), ("len(__l)", "Z.of_nat (length {l})", "Z")])
+
+# self.get(attr, ix): `arr` is the attribute's array (axis-0 entries of any type T, z = the zero of an entry's shape)
+C08_GET = dict(
+    _C08, func="get", name="src_get", pyparams=["self", "attr", "ix"],
+    params=[("T", "Type"), ("z", "T"), ("arr", "list T"), ("ix", _ZV)], returns="list T",
+    vars={"A": "list T", "controls": _NV},
+    prims=[("self.__getattribute__(attr)", "arr", "list T"),
+           ("__a[__i]", "np_take z {a} {i}", "list T", {"a": "list T", "i": _ZV}),      # integer fancy indexing
+           ("__a.copy()", "{a}", "list T", {"a": "list T"}),                            # a copy has the same value
+           ("__a == __v", "map (fun x => (x =? {v})%Z) {a}", "list bool", {"a": _ZV, "v": "Z"}),
+           ("np.where(__m)[0]", "np_where {m}", _NV, {"m": "list bool"}),
+           ("__a > __v", "map (fun i => (Z.of_nat i >? {v})%Z) {a}", "list bool", {"a": _NV, "v": "Z"}),
+           ("len(__l)", "Z.of_nat (length {l})", "Z")],
+    assign_effects=[("A[__c] = 0.0", "A'", "np_zero_at z {state} {c}")],
+)
+
+# mcmc_step: `run` is what a block method does to the state (ANY implementation; the linking theorems instantiate it)
+C08_MCMC_STEP = dict(
+    _STMETHOD, func="mcmc_step", name="src_mcmc_step",
+    params=[("run", "blk -> st -> gprog st"), ("num_mcmc_steps", "Z"), ("self", "st")], vars={},
+    attr_vars={"self.num_mcmc_steps": "num_mcmc_steps"},      # a counter nothing else reads
+    prims=[("__a + __b", "({a} + {b})%Z", "Z", {"a": "Z", "b": "Z"})],
+    effects=[("self._reconstruct_Mu(clip=False)", "self'", "!run BReconstruct {state}")] + [
+        ("self.%s()" % m, "self'", "!run %s {state}" % b) for m, b in [
+            ("_alpha_step", "BAlpha"), ("_W0_step", "BW0"), ("_V0_step", "BV0"), ("_W_step", "BW"), ("_V2_step", "BV2"),
+            ("_V1_step", "BV1"), ("_prec_W0_step", "BPrecW0"), ("_prec_V0_step", "BPrecV0"), ("_prec_obs_step", "BPrecObs"),
+            ("_prec_V2_step", "BPrecV2"), ("_prec_V1_step", "BPrecV1"), ("_prec_W_step", "BPrecW")]],
+)
+
+_Y_STAR = "y, *_ = self.encode_obs()\n"
+C08_ALPHA = dict(
+    _STMETHOD, func="_alpha_step", name="src_alpha_step",
+    params=[("g", "cfg"), ("d", "data"), ("fake_intercept", "bool"), ("self", "st")],
+    vars={"old_value": "qnum", "y": _QV, "mean": "qnum", "stddev": "isqrt"},
+    prims=[("self.fake_intercept", "fake_intercept", "bool")] + _C08_SELF + _C08_SCALAR + _C08_SQRT[:2] + _C08_DRAWS + _C08_VEC,
+    stmt_prims=[(_Y_STAR, "y", "d_y d", _QV)],
+)
+C08_PREC_OBS = dict(
+    _STMETHOD, func="_prec_obs_step", name="src_prec_obs_step", params=_GDOS,
+    vars={"sse": "qnum", "an": "qnum", "bn": "qnum", "C": "isqrt", "last_rmse": "ssqrt"},
+    attr_vars={"self.last_rmse": "last_rmse"},                # a diagnostic nothing else reads
+    prims=_C08_SELF + _C08_SCALAR + _C08_SQRT + _C08_DRAWS + _C08_VEC,
+)
+C08_PREC_W0 = dict(
+    _STMETHOD, func="_prec_W0_step", name="src_prec_W0_step", params=_GDOS,
+    vars={"an": "qnum", "bn": "qnum", "C": "isqrt"},
+    prims=_C08_SELF + _C08_SCALAR + _C08_SQRT + _C08_DRAWS + _C08_VEC,
+)
+# the scalar Gaussian blocks.  `self.X[i] = v` stores into the state's array X; `self.Mu[idx] += x` is numpy's fancy-index update
+_store = lambda f: ("self.%s[__i] = __v" % f, "self'", "set_%s {state} (np_store (%s {state}) {i} {v})" % (f, f))
+_MU_IADD_SCALAR = ("self.Mu[__i] += __v", "self'", "set_Mu {state} (np_iadd_at_scalar (Mu {state}) {i} {v})")
+_Y_STAR2 = "y, _, *_ = self.encode_obs()\n"
+_C08_BLOCK_PRIMS = _C08_SELF + _C08_SCALAR + _C08_SQRT[:2] + _C08_DRAWS + _C08_VEC
+C08_W0_STEP = dict(
+    _STMETHOD, func="_W0_step", name="src_W0_step", params=_GDS,
+    vars={"y": _QV, "c": "Z", "cidx": _NV, "stddev": "isqrt", "resid": _QV, "old_contrib": "qnum", "N": "Z", "mean": "qnum"},
+    prims=_C08_BLOCK_PRIMS, stmt_prims=[(_Y_STAR2, "y", "d_y d", _QV)],
+    assign_effects=[_store("W0"), _MU_IADD_SCALAR],
+)
+C08_V0_STEP = dict(
+    _STMETHOD, func="_V0_step", name="src_V0_step", params=_GDS,
+    vars={"y": _QV, "cline": _ZV, "dd1": _ZV, "dd2": _ZV, "m": "Z", "idx1": _NV, "idx2": _NV, "stddev": "isqrt",
+          "old_value": "qnum", "resid1": _QV, "resid2": _QV, "resid": _QV, "idx": _NV, "N": "Z", "mean": "qnum"},
+    prims=_C08_BLOCK_PRIMS, assign_effects=[_store("V0"), _MU_IADD_SCALAR],
+)
+# the horseshoe precision steps: vectorised gamma draws, clipping
+_C08_VEC2 = [      # scalar op array, array * array, arrays of square roots, the counts N1 / N2
+    ("__x + __a", "np_sadd {x} {a}", _QV, {"x": "qnum", "a": _QV}), ("__x * __a", "np_smul {x} {a}", _QV, {"x": "qnum", "a": _QV}),
+    ("__x / __a", "np_sdiv {x} {a}", _QV, {"x": "qnum", "a": _QV}), ("__a * __b", "np_vmul {a} {b}", _QV, {"a": _QV, "b": _QV}),
+    ("np.sqrt(__a)", "map Sqrt {a}", "list ssqrt", {"a": _QV}), ("1.0 / __r", "map inv_sqrt {r}", "list isqrt", {"r": "list ssqrt"}),
+    ("np.clip(__a, __lo, __hi)", "np_clip_isq_each orc {a} {lo} {hi}", _QV, {"a": _QV, "lo": "list isqrt", "hi": "qnum"}),
+    ("np.clip(__a, __lo, __hi)", "np_clip_isq_all orc {a} {lo} {hi}", _QV, {"a": _QV, "lo": "isqrt", "hi": "qnum"}),
+    ("np.random.gamma(__a, __s)", "!draw_gamma_vec {a} {s}", _QV, {"a": "qnum", "s": _QV}),
+    ("range(__n)", "zrange {n}", _ZV, {"n": "Z"}), ("np.array(__l)", "{l}", _ZV, {"l": _ZV}),
+]
+_HS_PRIMS = [("self.local_shrinkage", "local_shrinkage", "bool")] + _C08_SELF + _C08_SCALAR + _C08_SQRT + _C08_DRAWS + _C08_VEC + _C08_VEC2
+_HS_PARAMS = [("g", "cfg"), ("d", "data"), ("orc", "oracle"), ("local_shrinkage", "bool"), ("self", "st")]
+C08_PREC_V0 = dict(
+    _STMETHOD, func="_prec_V0_step", name="src_prec_V0_step", params=_HS_PARAMS,
+    vars={"phiaux0": _QV, "bn": "list qnum | qnum", "N1": _ZV, "N2": _ZV, "C": "list isqrt | isqrt", "an": "qnum", "etaaux0": "qnum"},
+    prims=_HS_PRIMS,
+)
+_C08_MAT = [       # matrices as lists of rows: scalar op matrix, row vector * matrix (broadcast over the rows), matrix op matrix
+    ("__x + __a", "map (np_sadd {x}) {a}", _QM, {"x": "qnum", "a": _QM}), ("__x / __a", "map (np_sdiv {x}) {a}", _QM, {"x": "qnum", "a": _QM}),
+    ("__v * __a", "map (np_vmul {v}) {a}", _QM, {"v": _QV, "a": _QM}), ("__a ** 2", "map np_square {a}", _QM, {"a": _QM}),
+    ("__a + __b", "zipw np_vadd {a} {b}", _QM, {"a": _QM, "b": _QM}), ("__a * __b", "zipw np_vmul {a} {b}", _QM, {"a": _QM, "b": _QM}),
+    ("__a + __x", "map (fun r__ => np_vadds r__ {x}) {a}", _QM, {"a": _QM, "x": "qnum"}),
+    ("__a.sum(0)", "np_colsum (c_D g) {a}", _QV, {"a": _QM}),                       # the sampler's matrices have self.D columns
+    ("np.clip(__a, __c[:, None], __hi)", "np_clip_isq_rows orc {a} {c} {hi}", _QM, {"a": _QM, "c": "list isqrt", "hi": "qnum"}),
+    ("np.random.gamma(__a, __s)", "!draw_gamma_mat {a} {s}", _QM, {"a": "qnum", "s": _QM}),
+]
+_hs_vk = lambda k: dict(
+    _STMETHOD, func="_prec_V%s_step" % k, name="src_prec_V%s_step" % k, params=_HS_PARAMS,
+    vars={"phiaux" + k: _QM, "bn": "list list qnum | list qnum", "N1": _ZV, "N2": _ZV, "C": "list isqrt | isqrt", "an": "qnum",
+          "etaaux" + k: _QV},
+    prims=_HS_PRIMS + _C08_MAT)
+C08_PREC_V2, C08_PREC_V1 = _hs_vk("2"), _hs_vk("1")
+# the multiplicative gamma process of the W columns
+C08_PREC_W = dict(
+    _STMETHOD, func="_prec_W_step", name="src_prec_W_step",
+    params=[("g", "cfg"), ("d", "data"), ("orc", "oracle"), ("mult_gamma_proc", "bool"), ("self", "st")],
+    vars={"parssq": _QM, "tmp": _QV, "an": "qnum", "bn": "qnum | list qnum", "d": "Z", "C": "isqrt"},
+    range_like=(),                                             # range(n) / range(a, b) are the prims below
+    prims=[("self.mult_gamma_proc", "mult_gamma_proc", "bool"), ("range(__a, __b)", "zrange2 {a} {b}", _ZV, {"a": "Z", "b": "Z"}),
+           ("np.cumprod(__a)", "cumprod {a}", _QV, {"a": _QV}), ("__a / __x", "np_vdivs {a} {x}", _QV, {"a": _QV, "x": "qnum"}),
+           ("__a[__i:]", "np_from {a} {i}", _QV, {"a": _QV, "i": "Z"}),
+           ("__a[:, __i:]", "map (fun r__ => np_from r__ {i}) {a}", _QM, {"a": _QM, "i": "Z"}),
+           ("__a.sum()", "np_msum {a}", "qnum", {"a": _QM})]
+          + _C08_SELF + _C08_SCALAR + _C08_SQRT + _C08_DRAWS + _C08_VEC + _C08_VEC2 + _C08_MAT,
+    assign_effects=[_store("gam")],
+)
+# the vector Gaussian blocks: matrix primitives, the try/except around sample_mvn_from_precision
+_getcall = lambda f: ("self.get('%s', __i)" % f, "!src_get (list qnum) (repeat q0 (c_D g)) (%s self') {i}" % f, _QM, {"i": _ZV})
+_C08_LINALG = [
+    _getcall("V2"), _getcall("V1"),                            # runs the translated get on self.V2 / self.V1 (a zero row has D zeros)
+    ("__a[__i]", "np_gather 0%Z {a} {i}", _ZV, {"a": _ZV, "i": _NV}),
+    ("__a[__i]", "np_get [] {a} {i}", _QV, {"a": _QM, "i": "Z"}),
+    ("__X @ __v", "np_matvec {X} {v}", _QV, {"X": _QM, "v": _QV}),
+    ("__A @ __B", "np_matmul (c_D g) {A} {B}", _QM, {"A": _QM, "B": _QM}),      # the sampler's design matrices have self.D columns
+    ("__X.transpose()", "np_transpose (c_D g) {X}", _QM, {"X": _QM}),
+    ("__a * __x", "np_vmuls {a} {x}", _QV, {"a": _QV, "x": "qnum"}), ("__A * __x", "np_mmuls {A} {x}", _QM, {"A": _QM, "x": "qnum"}),
+    ("np.random.normal(0.0, __s)", "!draw_normal_vec {s}", _QV, {"s": "list isqrt"}),
+]
+_MU_IADD = ("self.Mu[__i] += __v", "self'", "set_Mu {state} (np_iadd_at (Mu {state}) {i} {v})")
+_MVN = ("sample_mvn_from_precision(__Q, mu_part=__b)", "draw_mvn {Q} {b}", {"Q": _QM, "b": _QV}, "VV {x}", _QV)
+C08_W_STEP = dict(
+    _STMETHOD, func="_W_step", name="src_W_step", params=_GDS,
+    vars={"y": _QV, "_": _ZV, "dd1": _ZV, "dd2": _ZV, "c": "Z", "cidx": _NV, "stddev": "list isqrt", "tmp1": _QM, "tmp2": _QM,
+          "X": _QM, "old_contrib": _QV, "resid": _QV, "Xt": _QM, "prec": "qnum", "mu_part": _QV, "Q": _QM},
+    prims=_C08_LINALG + _C08_BLOCK_PRIMS + _C08_VEC2[:6] + _C08_MAT[:6],
+    assign_effects=[_store("W"), _MU_IADD, ("Q[np.diag_indices(self.D)] += __v", "Q'", "np_add_diag {state} {v}")],
+    try_prims=[_MVN], ignore=["warnings.warn(__m)"],
+)
+_C08_LINALG2 = [
+    ("__a[__i]", "np_take (repeat q0 (c_D g)) {a} {i}", _QM, {"a": _QM, "i": _ZV}),       # rows of a D-column matrix by Python ints
+    ("np.array([], dtype=np.float32).reshape(0, self.D)", "[]", _QM),                      # the matrix without rows
+    ("np.concatenate([__a, __b])", "{a} ++ {b}", _QM, {"a": _QM, "b": _QM}),
+    ("np.diag_indices(__n)", "DiagIndices {n}", "diag_indices", {"n": "Z"}),
+]
+_vstep = lambda k: dict(
+    _STMETHOD, func="_V%s_step" % k, name="src_V%s_step" % k, params=_GDS,
+    vars={"y": _QV, "cline": _ZV, "dd1": _ZV, "dd2": _ZV, "m": "Z", "idx1": _NV, "idx2": _NV, "stddev": "list isqrt",
+          "resid1": _QV, "old_contrib1": _QV, "X1": _QM, "resid2": _QV, "old_contrib2": _QV, "X2": _QM, "X": _QM, "resid": _QV,
+          "old_contrib": _QV, "idx": _NV, "Xt": _QM, "mu_part": _QV, "Q": _QM, "dix": "diag_indices"},
+    prims=_C08_LINALG2 + _C08_LINALG + _C08_BLOCK_PRIMS + _C08_VEC2[:6] + _C08_MAT[:6],
+    assign_effects=[_store("V" + k), _MU_IADD, ("Q[dix] += __v", "Q'", "np_add_diag_at dix' {state} {v}")],
+    try_prims=[_MVN], ignore=["warnings.warn(__m)"])
+C08_V2_STEP, C08_V1_STEP = _vstep("2"), _vstep("1")
+# _reconstruct_Mu(clip): the fitted values from scratch
+C08_RECONSTRUCT = dict(
+    _STMETHOD, func="_reconstruct_Mu", name="src_reconstruct_Mu", pyparams=["self", "clip"], pydefaults=["True"],
+    params=[("g", "cfg"), ("d", "data"), ("clip", "bool"), ("self", "st")],
+    vars={"_": _QV, "cline": _ZV, "dd1": _ZV, "dd2": _ZV, "interaction2": _QV, "interaction1": _QV, "intercept": _QV},
+    prims=[("self.get('V0', __i)", "!src_get qnum q0 (V0 self') {i}", _QV, {"i": _ZV}),
+           ("__a[__i]", "np_take q0 {a} {i}", _QV, {"a": _QV, "i": _ZV}),
+           ("np.sum(__a, -1)", "map qsum {a}", _QV, {"a": _QM}),                      # row sums
+           ("self.min_Mu", "c_minMu g", "qnum"), ("self.max_Mu", "c_maxMu g", "qnum"),
+           ("np.clip(__a, __lo, __hi)", "map (qclip {lo} {hi}) {a}", _QV, {"a": _QV, "lo": "qnum", "hi": "qnum"})]
+          + _C08_LINALG2[:1] + _C08_LINALG[:2] + _C08_SELF + _C08_SCALAR + _C08_VEC + _C08_VEC2[:4] + _C08_MAT[:6],
+)
+# _update / encode_obs on the observation store of the object (pyobs: the four lists, the three defaultdict(list) index dicts)
+_OBS = dict(
+    file="src/batchie/models/sparse_combo.py", cls="LegacySparseDrugComboImpl", out="SrcGibbs.v", imports="Lib.Num Model.Gibbs", overload=True,
+    fields={"y": ("pyobs", _QV, "o_y {obj}", "set_o_y {obj} {val}"), "cline": ("pyobs", _ZV, "o_cl {obj}", "set_o_cl {obj} {val}"),
+            "dd1": ("pyobs", _ZV, "o_dd1 {obj}", "set_o_dd1 {obj} {val}"), "dd2": ("pyobs", _ZV, "o_dd2 {obj}", "set_o_dd2 {obj} {val}")})
+C08_UPDATE = dict(
+    _OBS, func="_update", name="src_update", pyparams=["self", "y", "cl", "dd1", "dd2"],
+    params=[("self", "pyobs"), ("y", "qnum"), ("cl", "Z"), ("dd1", "Z"), ("dd2", "Z")], returns="pyobs", implicit_return="{self}",
+    vars={"n": "nat"},
+    prims=[("self.n_obs()", "length (o_y self')", "nat")],                     # n_obs = len(self.y) (linked: C08_N_OBS)
+    effects=[("self.cline_idxs[__k].append(__n)", "self'", "set_o_cidx {state} (dl_append (o_cidx {state}) {k} {n})"),
+             ("self.dd1_idxs[__k].append(__n)", "self'", "set_o_1idx {state} (dl_append (o_1idx {state}) {k} {n})"),
+             ("self.dd2_idxs[__k].append(__n)", "self'", "set_o_2idx {state} (dl_append (o_2idx {state}) {k} {n})")],
+)
+C08_ENCODE_OBS = dict(
+    _OBS, func="encode_obs", name="src_encode_obs", pyparams=["self"], params=[("self", "pyobs")],
+    returns="(list qnum * list Z * list Z * list Z)", vars={"y": _QV, "cline": _ZV, "dd1": _ZV, "dd2": _ZV},
+    prims=[("np.array(__l, copy=False)", "{l}", _QV, {"l": _QV}), ("np.array(__l, copy=False)", "{l}", _ZV, {"l": _ZV})],
+)
+C08_ALL = [C08_N_OBS, C08_GET, C08_MCMC_STEP, C08_ALPHA, C08_PREC_OBS, C08_PREC_W0, C08_W0_STEP, C08_V0_STEP, C08_PREC_V0,
+           C08_PREC_V2, C08_PREC_V1, C08_PREC_W, C08_W_STEP, C08_V2_STEP, C08_V1_STEP, C08_RECONSTRUCT, C08_UPDATE, C08_ENCODE_OBS]
+ALL += C08_ALL
